@@ -2,6 +2,7 @@ import LexVerif.Props.C01
 import LexVerif.Props.C05
 import LexVerif.Props.C12
 import LexVerif.Proof.Pipeline
+import LexVerif.Proof.LitBits
 /-!
 # Props.C01Main — the dependency structure of C01, machine-checked
 
@@ -34,6 +35,7 @@ namespace LexVerif.Props.C01Main
 open LexVerif.Spec LexVerif.Model LexVerif.Model.ParseFloatAlgo
 open LexVerif.Proof.RoundNE LexVerif.Proof.ExtRound LexVerif.Proof.Pipeline
 open LexVerif.Props.C01 (lemire_sound IsLemireFloat IsI64 Bracket)
+open LexVerif.Proof.Grammar (SpecialsWF LettersOnly)
 
 /-! ## the named hypotheses -/
 
@@ -168,7 +170,7 @@ theorem numberToFloat_of_contracts (slow : SlowRadix) {F : FTy} (hF : IsLemireFl
     (hx : RatEq (powFrac c.exponentBase n.exponent n.mantissa)
       (litFrac c.mantissaRadix c.exponentBase (numberLit c n)))
     (hfast : FastContract c F n) (hmod : ModerateContract c F n)
-    (hslow : ∀ fp, fp.exp < 0 →
+    (hslow : ∀ fp, moderatePath c F (numOf n) false = .ok fp → fp.exp < 0 →
       Bracket F fp (litFrac c.mantissaRadix c.exponentBase (numberLit c n)).1
         (litFrac c.mantissaRadix c.exponentBase (numberLit c n)).2 →
       extendedToFloat F (slowPath slow c F n { fp with exp := fp.exp - invalidFp }) =
@@ -193,7 +195,7 @@ theorem numberToFloat_of_contracts (slow : SlowRadix) {F : FTy} (hF : IsLemireFl
     by_cases hneg : fp.exp < 0
     · rw [if_pos hneg]
       have hbr := bracket_congr hpd hld hx (hinv hneg)
-      rw [toNative_eq F _ _ (hslow fp hneg hbr), ← sf]
+      rw [toNative_eq F _ _ (hslow fp hm hneg hbr), ← sf]
       unfold roundSigned; rw [hcg]
     · rw [if_neg hneg]
       rw [toNative_eq F _ _ (hvalid (by omega)), sf]
@@ -270,8 +272,253 @@ theorem numberToFloat_lemire (hL : lemire_sound) (slow : SlowRadix) (hS : SlowPa
   obtain ⟨hw, hq, hre⟩ := hx
   apply numberToFloat_of_contracts slow hF c (by omega) (by omega) (by omega) n hmany hre
     (fastContract_decimal hF c hr n) (moderateContract_lemire hL hF c hcompact hr hb n hmany hw hq)
-  intro fp hneg hbr
+  intro fp _ hneg hbr
   rw [slowPath_decimal slow c hr]
   exact hS c F n fp hF (by omega) (by omega) (by omega) hneg hbr
+
+/-! ## unconditional corollaries: no hypothesis about Eisel–Lemire's open range or the slow path -/
+
+/-- whenever the moderate path *decides* and its answer is right, the slow path is not consulted -/
+theorem numberToFloat_decided (slow : SlowRadix) {F : FTy} (hF : IsLemireFloat F) (c : Cfg)
+    (hr : 2 ≤ c.mantissaRadix) (hr36 : c.mantissaRadix ≤ 36) (hb : 2 ≤ c.exponentBase)
+    (n : Number) (hmany : n.manyDigits = false)
+    (hx : RatEq (powFrac c.exponentBase n.exponent n.mantissa)
+      (litFrac c.mantissaRadix c.exponentBase (numberLit c n)))
+    (hfast : FastContract c F n) {fp : ExtendedFloat80} (hm : moderatePath c F (numOf n) false = .ok fp)
+    (hv : 0 ≤ fp.exp)
+    (hsound : extendedToFloat F fp = roundNE F.fmt (powFrac c.exponentBase n.exponent n.mantissa).1
+      (powFrac c.exponentBase n.exponent n.mantissa).2) :
+    numberToFloat slow c F n false = some (litBits F.fmt c.mantissaRadix c.exponentBase (numberLit c n)) := by
+  apply numberToFloat_of_contracts slow hF c hr hr36 hb n hmany hx hfast
+    ⟨fp, hm, fun _ => hsound, fun h => absurd h (by omega)⟩
+  intro fp2 hm2 hneg _
+  rw [hm] at hm2; injection hm2 with hm2; subst hm2; omega
+
+/-- **(i) fast-path inputs** (decimal, every feature set, `lossy` or not): if `try_fast_path` answers, the API
+result is `litBits` of the digit content. Assumption: IEEE hardware arithmetic (`Model.ExtFloat`). -/
+theorem pipeline_fast_path (slow : SlowRadix) {F : FTy} (hF : IsLemireFloat F) (c : Cfg)
+    (hr : c.mantissaRadix = 10) (hb : c.exponentBase = 10) (n : Number) (hmany : n.manyDigits = false)
+    (hx : RatEq (powFrac c.exponentBase n.exponent n.mantissa)
+      (litFrac c.mantissaRadix c.exponentBase (numberLit c n)))
+    (lossy : Bool) {v : Nat}
+    (hv : FastPath.tryFastPath (smallSetOf c.feats) F c.mantissaRadix c.exponentBase (numOf n) = .some v) :
+    numberToFloat slow c F n lossy = some (litBits F.fmt c.mantissaRadix c.exponentBase (numberLit c n)) := by
+  unfold numberToFloat
+  rw [hv]
+  simp only []
+  rw [(fastContract_decimal hF c hr n).2 v hv,
+    (spec_forms hF c (by omega) (by omega) (by omega) n hmany hx).1]
+
+/-- **(ii) Eisel–Lemire on its proved domain** (`LemirePartialDomain`: zero mantissa, beyond the exponent cut-offs,
+exact-product range `0 ≤ q ≤ 27`): unconditional. -/
+theorem pipeline_lemire_partial (slow : SlowRadix) {F : FTy} (hF : IsLemireFloat F) (c : Cfg)
+    (hcompact : c.feats.compact = false) (hr : c.mantissaRadix = 10) (hb : c.exponentBase = 10)
+    (n : Number) (hmany : n.manyDigits = false) (hx : NumberExactAt c n)
+    (hdom : C01.LemirePartialDomain F n.exponent n.mantissa) :
+    numberToFloat slow c F n false = some (litBits F.fmt c.mantissaRadix c.exponentBase (numberLit c n)) := by
+  obtain ⟨hw, _, hre⟩ := hx
+  obtain ⟨fp, e1, e2, e3⟩ := C01.lemire_sound_partial F hF n.exponent n.mantissa hw hdom
+  apply numberToFloat_decided slow hF c (by omega) (by omega) (by omega) n hmany hre
+    (fastContract_decimal hF c hr n) (fp := fp) ?_ e2 (by rw [hb]; exact e3)
+  unfold moderatePath
+  rw [hr, backend_lemire _ hcompact]
+  simp only []
+  rw [lemire_untruncated F (numOf n) hmany]
+  exact e1
+
+theorem backend_bellerophon_compact (feats : Features) (hc : feats.compact = true) :
+    backend feats 10 = .bellerophon := by
+  unfold backend
+  rw [hc]
+  have : isPowerTwo 10 = false := by decide
+  simp only [if_true, this, Bool.false_eq_true, if_false]
+  split <;> rfl
+
+/-- **(iii) `compact` builds, decimal, Bellerophon decides**: unconditional (`bellerophon_sound_untruncated`). -/
+theorem pipeline_bellerophon_decided (slow : SlowRadix) {F : FTy} (hF : IsLemireFloat F) (c : Cfg)
+    (hcompact : c.feats.compact = true) (hr : c.mantissaRadix = 10) (hb : c.exponentBase = 10)
+    (n : Number) (hmany : n.manyDigits = false) (hx : NumberExactAt c n) {fp : ExtendedFloat80}
+    (hbel : Bellerophon.bellerophon F (Gen.Bellerophon.CompactRadix.powers 10) (numOf n) false = .ok fp)
+    (hv : 0 ≤ fp.exp) :
+    numberToFloat slow c F n false = some (litBits F.fmt c.mantissaRadix c.exponentBase (numberLit c n)) := by
+  obtain ⟨hw, _, hre⟩ := hx
+  apply numberToFloat_decided slow hF c (by omega) (by omega) (by omega) n hmany hre
+    (fastContract_decimal hF c hr n) (fp := fp) ?_ hv
+    (by rw [hb]; exact C01.bellerophon_sound_untruncated F hF (numOf n) hmany hw hbel hv)
+  unfold moderatePath
+  rw [hr, backend_bellerophon_compact _ hcompact]
+  simp only []
+  unfold Bellerophon.powersOf
+  rw [hcompact]
+  exact hbel
+
+/-! ### power-of-two radices -/
+
+theorem radixSet_of_pow2 (feats : Features) (hp : feats.powerOfTwo = true) : C05.IsRadixSet (smallSetOf feats) := by
+  unfold smallSetOf C05.IsRadixSet
+  split
+  · exact Or.inr rfl
+  · rw [hp, Bool.or_true]; exact Or.inl rfl
+
+theorem pow2_mem_radices {S : Proof.Tables.SmallSet} (hS : C05.IsRadixSet S) {r : Nat} (hr : C05.IsPow2 r) :
+    r ∈ S.radices := by
+  rcases hS with h | h <;> subst h <;> rcases hr with h | h | h | h | h <;> subst h <;> decide
+
+/-- the fast path meets its contract for every radix of a `radix` / `power-of-two` build -/
+theorem fastContract_radix {F : FTy} (hF : IsLemireFloat F) (c : Cfg) (hS : C05.IsRadixSet (smallSetOf c.feats))
+    (hr : c.mantissaRadix ∈ (smallSetOf c.feats).radices) (n : Number) : FastContract c F n := by
+  unfold FastContract
+  refine ⟨C05.fastPath_no_panic_radix hS hr F hF _ _, ?_⟩
+  intro v hv
+  by_cases hb : c.mantissaRadix = c.exponentBase
+  · rw [← hb] at hv ⊢
+    rcases hF with h | h <;> subst h
+    · exact C05.fastPath_exact_radix_f64 hS hr _ (numOf n) v hv
+    · exact C05.fastPath_exact_radix_f32 hS hr _ (numOf n) v hv
+  · rw [C05.fastPath_mixed_base_none _ _ hb] at hv
+    exact absurd hv (by simp)
+
+theorem backend_binary (feats : Features) (hp : feats.powerOfTwo = true) {r : Nat} (hr : C05.IsPow2 r) :
+    backend feats r = .binary := by
+  unfold backend
+  rw [hp]
+  rcases hr with h | h | h | h | h <;> subst h <;> cases feats.compact <;> cases feats.radix <;> decide
+
+/-- **(iv) power-of-two radices** (2, 4, 8, 16, 32; mixed-base formats such as hex floats included), untruncated
+mantissa: unconditional — `binary` always decides (`binary_decides`) and is right (`binary_correct`); neither
+`slow_binary` nor `slow_radix` is reached. -/
+theorem pipeline_binary (slow : SlowRadix) {F : FTy} (hF : IsLemireFloat F) (c : Cfg)
+    (hp : c.feats.powerOfTwo = true) (hr : C05.IsPow2 c.mantissaRadix) (hb : C05.IsPow2 c.exponentBase)
+    (n : Number) (hmany : n.manyDigits = false) (hw : n.mantissa < 2 ^ 64) (he : C05.ExpInRange n.exponent)
+    (hx : RatEq (powFrac c.exponentBase n.exponent n.mantissa)
+      (litFrac c.mantissaRadix c.exponentBase (numberLit c n))) :
+    numberToFloat slow c F n false = some (litBits F.fmt c.mantissaRadix c.exponentBase (numberLit c n)) := by
+  have hS := radixSet_of_pow2 c.feats hp
+  obtain ⟨fp, hbin, hv⟩ := C05.binary_decides hF hb (numOf n) false hw he (Or.inl hmany)
+  have hr2 : 2 ≤ c.mantissaRadix ∧ c.mantissaRadix ≤ 36 := by
+    rcases hr with h | h | h | h | h <;> rw [h] <;> omega
+  have hb2 : 2 ≤ c.exponentBase := by
+    rcases hb with h | h | h | h | h <;> rw [h] <;> omega
+  apply numberToFloat_decided slow hF c hr2.1 hr2.2 hb2 n hmany hx
+    (fastContract_radix hF c hS (pow2_mem_radices hS hr) n) (fp := fp) ?_ hv ?_
+  · unfold moderatePath
+    rw [backend_binary _ hp hr]
+    exact hbin
+  · rcases hF with h | h <;> subst h
+    · exact C05.binary_correct_f64 hb (numOf n) false hw he hbin hv
+    · exact C05.binary_correct_f32 hb (numOf n) false hw he hbin hv
+
+/-! ## the hypotheses are satisfiable -/
+
+/-- an extended float assembled from the two fields of a finite-or-infinite pattern converts back to the pattern -/
+theorem ext_of_bits {F p eb} (lay : Layout F p eb) (x : Nat) (hx : x ≤ F.fmt.infBits) :
+    extendedToFloat F ⟨x % 2 ^ F.ms, ((x / 2 ^ F.ms : Nat) : Int)⟩ = x := by
+  have hf := lay.wf
+  have hbits : F.C.bits.toNat = p + eb := by rw [lay.bits]; rfl
+  have hlt : x < 2 ^ (p + eb) := by
+    have h1 := infBits_lt_signBit hf
+    rw [signBit_eq hf, lay.fmt] at h1
+    simp only [] at h1
+    have h2 : 2 ^ eb * 2 ^ (p - 1) ≤ 2 ^ (p + eb) := by
+      rw [← Nat.pow_add]; exact Nat.pow_le_pow_right (by decide) (by omega)
+    rw [lay.fmt] at hx
+    omega
+  rw [lay.msNat]
+  have := ext_of_fields F (p - 1) (p + eb) lay.msNat hbits (x % 2 ^ (p - 1)) (x / 2 ^ (p - 1))
+    (Nat.mod_lt _ (Nat.two_pow_pos _)) (by rw [Nat.div_add_mod']; exact hlt) lay.hp64
+  rw [this, Nat.div_add_mod']
+
+/-- **`SlowPathCorrect` is satisfiable**: the specification arithmetic itself, packaged as an extended float,
+meets the contract (for every estimate — the bracket is what a *real* slow path needs, not the oracle). -/
+theorem slowOracle_correct : SlowPathCorrect slowOracle := by
+  intro c F n fp hF hr hr36 hb _ _
+  obtain ⟨p, eb, lay⟩ := layout_of hF
+  have hf := lay.wf
+  unfold slowOracle
+  simp only []
+  have hdig : ∀ d ∈ ({ numberLit c n with neg := false } : FloatLit).intDigits ++
+      ({ numberLit c n with neg := false } : FloatLit).fracDigits, d < c.mantissaRadix :=
+    numberLit_digits_lt c n
+  have e := litBits_exact lay hr (by omega) hb { numberLit c n with neg := false } hdig
+  have hfr : litFrac c.mantissaRadix c.exponentBase { numberLit c n with neg := false } =
+      litFrac c.mantissaRadix c.exponentBase (numberLit c n) := rfl
+  rw [hfr] at e
+  unfold roundSigned at e
+  simp only [Bool.false_eq_true, if_false, Nat.add_zero] at e
+  rw [e]
+  exact ext_of_bits lay _ (roundNE_le_infBits hf _ (litFrac_den_pos (by omega) (by omega) _))
+
+/-! ## API level -/
+
+/-- the two API models differ only in how a `Number` becomes bits -/
+theorem parseFloatAlgoModel_eq (slow : SlowRadix) (feats : Features) (fmt : Format) (o : POpts) (isPartial : Bool)
+    (F : FTy) (s : List Nat)
+    (h : ∀ n cnt, parseFloatSyntax ⟨feats, fmt, false⟩ o isPartial s (formatError feats fmt).isNone =
+        .ok (.number n cnt) →
+      numberToFloat slow ⟨feats, fmt, false⟩ F n false = some (numberBits ⟨feats, fmt, false⟩ F.fmt n)) :
+    parseFloatAlgoModel slow feats fmt o isPartial F s = parseFloatModel feats fmt o isPartial F.fmt s := by
+  unfold parseFloatAlgoModel parseFloatModel
+  cases optionsError o with
+  | some e => rfl
+  | none =>
+    simp only []
+    split
+    · rfl
+    · split
+      · rfl
+      · split
+        · rfl
+        · cases hp : parseFloatSyntax ⟨feats, fmt, false⟩ o isPartial s (formatError feats fmt).isNone with
+          | error e => rfl
+          | ok q =>
+            simp only []
+            cases q with
+            | zero k => rfl
+            | special sp neg k => cases sp <;> rfl
+            | number n cnt =>
+              unfold renderParsedAlgo renderParsed
+              simp only []
+              rw [h n cnt hp]
+
+/-- **`C01_main`** — decimal string→float, API level, non-`compact` builds: for every format of the class C12
+covers, all options, complete and partial parser, and every input whose `Number` is untruncated,
+`lemire_sound → SlowPathCorrect slow → NumberExact →` the pipeline model prints exactly what the specification
+model prints (`Spec.litBits` of the digit content; errors and special values are shared syntax). -/
+theorem C01_main (hL : lemire_sound) (slow : SlowRadix) (hS : SlowPathCorrect slow) (hN : NumberExact)
+    (feats : Features) (hcompact : feats.compact = false) (fmt : Format)
+    (hr : fmt.mantissaRadix = 10) (hb : fmt.exponentBase = 10)
+    (hclass : feats.format = false ∨ C12.SepPrefixFree fmt)
+    (o : POpts) {F : FTy} (hF : IsLemireFloat F) (isPartial : Bool) (s : List Nat)
+    (hfew : ∀ n cnt, parseFloatSyntax ⟨feats, fmt, false⟩ o isPartial s (formatError feats fmt).isNone =
+      .ok (.number n cnt) → n.manyDigits = false) :
+    parseFloatAlgoModel slow feats fmt o isPartial F s = parseFloatModel feats fmt o isPartial F.fmt s := by
+  apply parseFloatAlgoModel_eq
+  intro n cnt hp
+  have hmany := hfew n cnt hp
+  have hx := hN ⟨feats, fmt, false⟩ o isPartial s _ n cnt rfl hclass hr hb hp hmany
+  rw [numberToFloat_lemire hL slow hS hF ⟨feats, fmt, false⟩ hcompact hr hb n hmany hx]
+  have hr' : (⟨feats, fmt, false⟩ : Cfg).mantissaRadix = 10 := hr
+  have hb' : (⟨feats, fmt, false⟩ : Cfg).exponentBase = 10 := hb
+  rw [(spec_forms hF ⟨feats, fmt, false⟩ (by omega) (by omega) (by omega) n hmany hx.2.2).2]
+
+/-- the same conclusion in the grammar's terms, complete parser: when the model accepts a number, the documented
+grammar derives the input (`numberOk`), the `Number`'s slices are the derivation's integer and fraction digits,
+its explicit exponent the derivation's, and the pipeline returns `litBits` of exactly that content. -/
+theorem C01_main_grammar (hL : lemire_sound) (slow : SlowRadix) (hS : SlowPathCorrect slow) (hN : NumberExact)
+    (c : Cfg) (hd : c.debug = false) (hcompact : c.feats.compact = false)
+    (hr : c.mantissaRadix = 10) (hb : c.exponentBase = 10)
+    (hclass : c.feats.format = false ∨ C12.SepPrefixFree c.fmt)
+    (o : POpts) (wf : SpecialsWF o) (hlet : LettersOnly o) {F : FTy} (hF : IsLemireFloat F) (s : List Nat)
+    (hbytes : ∀ x ∈ s, x < 256) (fv : Bool) (hbody : (splitSign s).2 ≠ [])
+    (n : Number) (cnt : Nat) (hp : parseFloatSyntax c o false s fv = .ok (.number n cnt))
+    (hmany : n.manyDigits = false) :
+    LexVerif.Proof.Grammar.Verdict c o s (.number n cnt) ∧
+    numberToFloat slow c F n false = some (litBits F.fmt 10 10 (numberLit c n)) := by
+  have hr8 : c.feats.powerOfTwo = false → c.mantissaRadix ≤ 10 := fun _ => by omega
+  refine ⟨(C12.accepts_iff_grammar_partial c hd hclass hr8 o wf hlet s hbytes fv hbody).1 _ hp, ?_⟩
+  have hx := hN c o false s fv n cnt hd hclass hr hb hp hmany
+  have := numberToFloat_lemire hL slow hS hF c hcompact hr hb n hmany hx
+  rw [hr, hb] at this
+  exact this
 
 end LexVerif.Props.C01Main
